@@ -157,6 +157,9 @@ def rewrites(rng, p, accepted, max_single=8):
                 out.append(("annotate-subset", scopegen.annotate(p, sub)))
         if sites:
             out.append(("annotate-all", scopegen.annotate(p, sites)))
+    nif = scopegen.if_sites(p)
+    if nif:
+        out.append(("swap-branches/verdict-only", scopegen.swap_branches(p, rng.below(nif))))
     for which, n in rng.shuffle(scopegen.chain_sites(p))[:3]:
         out.append(("wrap-else-if", scopegen.nest_else_if(p, which, rng.range(1, n))))
     if p.get("broken") == "underconstrained":
@@ -167,6 +170,36 @@ def rewrites(rng, p, accepted, max_single=8):
     q = dict(p)
     q["split"] = [c for c in scopegen.LIB_ORDER if rng.chance(1, 2)] or ["Sh"]
     out.append(("split-modules", q))
+    return out
+
+
+def mix_family(ctx):
+    """deterministic family: arguments of generic calls that are if/else, 3-arm match or blocks whose
+    branches are drawn from {needs the hint} x {synthesisable: literal / variable / call / generic call on
+    variable / on call / nested two deep / plain call}, in EVERY order in which at least one branch needs
+    the hint; thorough: every ordered pair"""
+    g = scopegen
+    out = []
+    for family, kinds in (("M", g.M_KINDS), ("L", g.L_KINDS)):
+        for shape in ("if", "match", "if-block", "block-if"):
+            for a in kinds:
+                for b in kinds:
+                    if ctx.quick and not (a in g.NEEDS_HINT or b in g.NEEDS_HINT):
+                        continue
+                    ks = [a, b] if shape != "match" else [a, b, a]
+                    out.append(g.mix_program(family, shape, ks))
+    return out
+
+
+def mix_rewrites(p, accepted):
+    """every rewrite instance of a family member: swap the branches of every if/else (with the
+    condition negated), and — the base being accepted — every annotation site on its own, and all"""
+    out = [("swap-branches/verdict-only", scopegen.swap_branches(p, i)) for i in range(scopegen.if_sites(p))]
+    if accepted:
+        sites = scopegen.annotation_sites(p)
+        out += [("annotate-one:" + st[0], scopegen.annotate(p, [st])) for st in sites]
+        if sites:
+            out.append(("annotate-all", scopegen.annotate(p, sites)))
     return out
 
 
@@ -337,6 +370,8 @@ def run(ctx):
     hist["cls_phase0_test_extracted"] = out_x.strip() if rc_x == 0 else "extractor failed"
 
     # ---------- oracle: metamorphic run on the real checker
+    nrandom = len(progs)
+    progs = progs + mix_family(ctx)
     lines, meta = [], []
     for pi, p in enumerate(progs):
         lines.append("check " + hexs(json.dumps(scopegen.render(p))))
@@ -345,11 +380,12 @@ def run(ctx):
     lines2, meta2 = [], []
     for (pi, _, p), v in zip(meta, verdicts):
         acc = v.startswith("accepted")
-        for kind, q in rewrites(rng.fork(), p, acc):
+        for kind, q in (mix_rewrites(p, acc) if p.get("mix") else rewrites(rng.fork(), p, acc)):
             lines2.append("check " + hexs(json.dumps(scopegen.render(q))))
             meta2.append((pi, kind, q))
     verdicts2 = run_impl(lines2)
     hist["programs"] = len(progs)
+    hist["programs_deterministic_family"] = len(progs) - nrandom
     hist["programs_accepted"] = sum(1 for v in verdicts if v.startswith("accepted"))
     hist["programs_rejected"] = sum(1 for v in verdicts if v.startswith("rejected"))
     hist["rewrite_instances"] = {}
@@ -385,8 +421,13 @@ def run(ctx):
     try:
         common.build_exec()
         nbeh = ctx.scale(45, 600)
-        chosen = sorted(set(pi for pi, _, _ in exec_jobs))[:nbeh]
-        jobs = [(pi, "original", progs[pi]) for pi in chosen] + [j for j in exec_jobs if j[0] in set(chosen)]
+        chosen = sorted(set(pi for pi, _, _ in exec_jobs if pi < nrandom))[:nbeh]
+        fam_idx = sorted(set(pi for pi, _, _ in exec_jobs if pi >= nrandom))
+        keep = set(chosen)
+        # family members: base + branch swap + all annotations (quick); thorough: every instance
+        fam_kinds = {"swap-branches/verdict-only", "annotate-all"}
+        jobs = [(pi, "original", progs[pi]) for pi in chosen + fam_idx] + \
+               [j for j in exec_jobs if j[0] in keep or (j[0] >= nrandom and (not ctx.quick or j[1] in fam_kinds))]
         outs = common.exec_programs([{"sources": scopegen.render(q), "entry": "Main", "std": True, "ts": False,
                                       "timeout_ms": 10000} for _, _, q in jobs])
         orig = {}
